@@ -114,6 +114,9 @@ class R:
                 lines.append(f"#[sv::attr({at})]")
         for at in h.get("foreign_attrs", []):
             lines.append(f"#[{at}]")
+        # foreign attributes / doc comments written in front of the framework's own attributes
+        for at in reversed(h.get("foreign_attrs_above", [])):
+            lines.insert(0, at if at.startswith("///") else f"#[{at}]")
         return lines
 
     def iface_src(self, part):
@@ -344,7 +347,8 @@ class R:
         if h.get("legacy"):
             # (the handler may use another error type than the contract's: the entry point converts it)
             ret = f"StdResult<Response<{M}>>" if h.get("ret_err") == "std" else f"Result<Response<{M}>, {p['error']}>"
-            return ["#[sv::msg(reply)]",
+            return [(at if at.startswith("///") else f"#[{at}]") for at in h.get("foreign_attrs_above", [])] + [
+                    "#[sv::msg(reply)]",
                     f"fn {h['name']}(&self, ctx: {self.sv}::types::ReplyCtx<{Q}>, reply: Reply) -> {ret} {{",
                     f"    echo_mut(\"{h['hid']}\", ctx.deps, &ctx.env, None, None, vec![(\"reply\", svmon::serde_json::to_string(&reply).unwrap())])",
                     "}"]
@@ -361,7 +365,7 @@ class R:
         else:
             args_.append(f"reply_on={h['reply_on']}")
         extra = "".join(", " + x for x in args_)
-        lines = [h.get("msg_attr_text") or f"#[sv::msg(reply{extra})]"]
+        lines = [(at if at.startswith("///") else f"#[{at}]") for at in h.get("foreign_attrs_above", [])] + [h.get("msg_attr_text") or f"#[sv::msg(reply{extra})]"]
         params = [h.get("self_text", "&self"), f"{h.get('ctx_attr', '')}ctx: ReplyCtx<{Q}>"]
         echo = []
         if h.get("params_text") is not None:
